@@ -89,7 +89,7 @@ class CoarsenerIter(Contract):
             out["chunks-are-the-span-aggregates-in-span-order"] = ok
         maps = [e[1] for e in log if e[0] == "map"]
         flat = [sp for m in maps for sp in m]
-        out["batches-of-at-most-batchsize-spans-cover-every-span-once"] = once_each(flat) and all(1 <= len(m) <= bs for m in maps)
+        out["batches-of-at-most-batchsize-spans-cover-every-span-once"] = once_each(flat) and all(len(m) <= bs for m in maps)
         # lock discipline around every batch
         held, ok = False, True
         for e in log:
